@@ -78,11 +78,16 @@ func randConfig(r *rand.Rand) Config {
 // goroutine that runs them (deterministic interleavings).
 type injectHandler struct{ w *World }
 
+var debugLog = os.Getenv("VERIF_DEBUG") == "2"
+
 func (h injectHandler) Enabled(context.Context, slog.Level) bool { return true }
 func (h injectHandler) WithAttrs([]slog.Attr) slog.Handler       { return h }
 func (h injectHandler) WithGroup(string) slog.Handler            { return h }
 func (h injectHandler) Handle(_ context.Context, r slog.Record) error {
 	w := h.w
+	if debugLog {
+		fmt.Fprintf(os.Stderr, "LOG armed=%d %s\n", w.injectIn, r.Message)
+	}
 	if w.injectIn <= 0 || w.injecting {
 		return nil
 	}
@@ -122,6 +127,14 @@ func (w *World) injectWrite() error {
 			w.injRef = before
 		}
 	}()
+	if w.injectOneFrame { // a one-page transaction: exactly one WAL frame
+		w.version++
+		if _, err := w.injConn.Exec("UPDATE ver SET n=?", w.version); err != nil {
+			w.version--
+			return err
+		}
+		return nil
+	}
 	if w.injectVersioned { // C02: the injected commit is a version-stamped transaction
 		if err := commitVersion(w.injConn, int64(w.version+1)); err != nil {
 			return err
@@ -157,6 +170,9 @@ type World struct {
 	injConn   *sql.DB
 	useInject bool
 	injectVersioned bool
+	injectOneFrame   bool
+	scripted         bool // explicit op list: no random injection
+	scriptInject     int // script mode: injection point for the next litestream op (0 = none)
 	concurrentWriter bool // C02 thorough tier: a writer goroutine runs concurrently (schedule-dependent)
 	injRef    []byte // committed image just before the commit injected during the CURRENT operation (nil: none)
 	dir        string
@@ -458,6 +474,9 @@ func (w *World) ackOracle(rc *Recorder, what string) {
 	}
 	ps := w.cfg.PageSize
 	d := diffPages(ref, got, ps)
+	if os.Getenv("VERIF_DEBUG") != "" {
+		fmt.Fprintf(os.Stderr, "DBG ack %s: diff pages %v%s\n", what, d, w.l0Summary())
+	}
 	if len(d) == 0 {
 		return
 	}
@@ -673,7 +692,10 @@ func (w *World) lsOp(rc *Recorder, op string) error {
 	ctx, cancel := context.WithTimeout(ctxb, 60*time.Second)
 	defer cancel()
 	w.injRef = nil
-	if w.useInject && op != "S1" && w.rng.Intn(2) == 0 {
+	if w.scriptInject > 0 {
+		w.injectIn = w.scriptInject
+		w.scriptInject = 0
+	} else if w.useInject && op != "S1" && w.rng.Intn(2) == 0 && !w.scripted {
 		w.injectIn = 1 + w.rng.Intn(30)
 	}
 	defer func() { w.injectIn = 0; w.injRef = nil }()
@@ -875,7 +897,7 @@ func (w *World) step(rc *Recorder, op string) {
 	if err != nil {
 		rc.violate("harness/op-error", fmt.Sprintf("op %s: %v", op, err), w)
 	}
-	if os.Getenv("VERIF_DEBUG") != "" {
+	if os.Getenv("VERIF_DEBUG") != "" && w.ldb != nil {
 		var wsz int64
 		var s1, s2 uint32
 		if b, e := os.ReadFile(w.dbPath + "-wal"); e == nil {
@@ -903,6 +925,7 @@ func runC01(rc *Recorder, dir string, rng *rand.Rand, steps int) error {
 	}
 	defer func() { w.closeReader(); w.app.Close() }()
 	w.useInject = rng.Intn(2) == 0
+	w.injectOneFrame = w.useInject && rng.Intn(3) == 0
 	w.ldb = w.newLitestream()
 	if err := w.ldb.Open(); err != nil {
 		return err
@@ -959,6 +982,24 @@ var lastTrace string
 
 // runScript runs an explicit op list (replay of minimised histories, known findings).
 func runScript(rc *Recorder, dir string, rng *rand.Rand, script, cfgs string) error {
+	return runScriptAs(rc, dir, rng, script, cfgs, "script")
+}
+
+// ckptWindowScripts: an application commit of ONE frame lands inside a FULL / RESTART
+// checkpoint, between its "copy before" and the PRAGMA, while the WAL is fully backfilled and
+// litestream reads at mark 0 - the commit restarts the WAL, the checkpoint backfills it and the
+// sequence bump overwrites it (Db/Machine.v full_checkpoint_window_refuted; fixed in /repo).
+var ckptWindowScripts = func() (l [][2]string) {
+	for _, mode := range []string{"FULL", "RESTART"} {
+		for _, k := range []int{3, 4, 5} {
+			l = append(l, [2]string{"ckpt-window:" + mode,
+				fmt.Sprintf("OPEN S W SW REOPEN W W ACK-PASSIVE OPEN S SW INJ1=%d CK-%s SW S SW", k, mode)})
+		}
+	}
+	return l
+}()
+
+func runScriptAs(rc *Recorder, dir string, rng *rand.Rand, script, cfgs, scenario string) error {
 	var c Config
 	var ci int64
 	fmt.Sscanf(cfgs, "%d,%d,%d,%d,%d,%d", &c.PageSize, &c.AutoVacuum, &c.MinCheckpointPageN, &c.TruncatePageN, &ci, &c.MaxSyncWALBytes)
@@ -968,16 +1009,65 @@ func runScript(rc *Recorder, dir string, rng *rand.Rand, script, cfgs string) er
 		return err
 	}
 	defer func() { w.closeReader(); w.app.Close() }()
-	w.ldb = w.newLitestream()
-	if err := w.ldb.Open(); err != nil {
-		return err
+	w.scenario = scenario
+	w.scripted = true
+	w.useInject = true
+	open := func() error {
+		if w.ldb != nil {
+			return nil
+		}
+		w.ldb = w.newLitestream()
+		w.trace = append(w.trace, "OPEN")
+		return w.ldb.Open()
 	}
-	w.trace = append(w.trace, "OPEN")
-	for _, op := range strings.Fields(script) {
+	toks := strings.Fields(script)
+	explicitOpen := false
+	for _, t := range toks {
+		if t == "OPEN" {
+			explicitOpen = true
+		}
+	}
+	if !explicitOpen {
+		if err := open(); err != nil {
+			return err
+		}
+	}
+	nextInject := 0
+	for _, op := range toks {
+		switch {
+		case op == "CLOSE":
+		case op == "OPEN":
+			if err := open(); err != nil {
+				return err
+			}
+			continue
+		case op == "REOPEN": // Close (acknowledged) and a NEW DB object, as a process restart
+			if w.ldb != nil {
+				w.trace = append(w.trace, "REOPEN")
+				w.closeLitestream(rc)
+				w.ldb = nil
+			}
+			continue
+		case strings.HasPrefix(op, "INJ1="): // same, but the injected transaction writes a single WAL frame
+			fmt.Sscanf(op, "INJ1=%d", &nextInject)
+			w.injectOneFrame = true
+			continue
+		case strings.HasPrefix(op, "INJ="): // commit an application transaction at the k-th log record of the NEXT litestream op
+			fmt.Sscanf(op, "INJ=%d", &nextInject)
+			continue
+		}
 		if op == "CLOSE" {
 			break
 		}
+		if w.ldb == nil && !(strings.HasPrefix(op, "ACK") || op == "W" || op == "U" || op == "D" || op == "V" || op == "DDL" || op == "RB" || op == "AOC" || op == "LR+" || op == "LR-") {
+			return fmt.Errorf("litestream op %s before OPEN", op)
+		}
+		w.scriptInject = nextInject
+		nextInject = 0
 		w.step(rc, op)
+	}
+	if w.ldb == nil {
+		return nil
 	}
 	w.trace = append(w.trace, "CLOSE")
 	w.closeLitestream(rc)
@@ -1069,6 +1159,9 @@ func main() {
 		case "c01":
 			if i == 0 {
 				err = runCloseBeforeFirstSync(rc, dir, rng)
+			} else if i <= len(ckptWindowScripts) {
+				sc := ckptWindowScripts[i-1]
+				err = runScriptAs(rc, dir, rng, sc[1], "4096,0,1000,0,0,0", sc[0])
 			} else {
 				err = runC01(rc, dir, rng, *steps)
 			}
